@@ -88,14 +88,17 @@ def build(spec):
         C = ManualMainController(name="C1", sectioning_time=Time(N(c["T"]), TimeUnit.HOUR))
     ps = PowerSystem(C)
     rep = N(spec.get("rep", "2"))
-    B0 = Bus("B0", n_customers=0)
+    B0 = Bus("B0", n_customers=0, s_ref=N(spec.get("s_ref", "1")))
     fb, fl = [], []
+    prods = []
     node_of = {}     # component name -> ict node index (from spec)
     if ict is not None:
         node_of = ict.get("attach", {})
 
-    def mk_line(name, a, b):
-        l = Line(name, a, b, r=N("1/20"), x=N("1/20"), capacity=100)
+    s_ref = N(spec.get("s_ref", "1"))
+
+    def mk_line(name, a, b, cap=None):
+        l = Line(name, a, b, r=N("1/20"), x=N("1/20"), capacity=(100 if cap is None else N(cap)), s_ref=s_ref)
         l.repair_time_dist = FixedDist(rep)
         return l
 
@@ -107,11 +110,15 @@ def build(spec):
 
     for f, fd in enumerate(spec["feeders"]):
         n = len(fd["parent"])
-        Bs = [Bus(f"F{f}B{i}", n_customers=fd["cust"][i]) for i in range(n)]
+        Bs = [Bus(f"F{f}B{i}", n_customers=fd["cust"][i], s_ref=s_ref) for i in range(n)]
         Ls = []
         for i in range(n):
             a = B0 if fd["parent"][i] < 0 else Bs[fd["parent"][i]]
-            Ls.append(mk_line(f"F{f}L{i}", a, Bs[i]))
+            Ls.append(mk_line(f"F{f}L{i}", a, Bs[i], (fd.get("cap") or [None] * n)[i]))
+        for k, pr in (fd.get("prod") or {}).items():
+            from relsad.network.components import Production
+            P = Production(f"F{f}P{k}", Bs[int(k)], pmax=N(pr.get("pmax", "10")), qmax=N(pr.get("qmax", "10")))
+            prods.append((P, pr))
         CircuitBreaker(f"F{f}E", Ls[0])
         for i in range(n):
             ds = []
@@ -179,6 +186,10 @@ def build(spec):
             arr = np.array([ld] * nprof, dtype=object) if exact else np.ones(nprof) * ld
             b.add_load_data(pload_data=arr, qload_data=arr / 2 if not exact else np.array([ld / 2] * nprof, dtype=object),
                             cost_function=CostFunction(A=fd.get("cost", [1] * len(fb[f]))[i], B=1))
+    for P, pr in prods:
+        v = N(pr["p"]); w = N(pr.get("q", "0"))
+        P.add_prod_data(pprod_data=(np.array([v] * nprof, dtype=object) if exact else np.ones(nprof) * v),
+                        qprod_data=(np.array([w] * nprof, dtype=object) if exact else np.ones(nprof) * w))
     for b in MB:
         ld = N("1/50")
         arr = np.array([ld] * nprof, dtype=object) if exact else np.ones(nprof) * ld
